@@ -2,13 +2,11 @@ package c02
 
 import (
 	"fmt"
-	"time"
 
-	"github.com/gdamore/tcell/v2"
 	"pgregory.net/rapid"
 
-	"verifharness/internal/faketty"
 	"verifharness/internal/inref"
+	"verifharness/internal/live"
 	"verifharness/internal/pbt"
 )
 
@@ -22,7 +20,7 @@ import (
 // the concatenated stream.
 type StaleCase struct {
 	Entry  string `json:"entry"`
-	Seq1   string `json:"seq1"`   // complete key sequence, cut after Cut1 bytes
+	Seq1   string `json:"seq1"` // complete key sequence, cut after Cut1 bytes
 	Cut1   int    `json:"cut1"`
 	Filler int    `json:"filler"` // runes between (>= 11: more than the event queue holds)
 	Seq2   string `json:"seq2"`
@@ -44,82 +42,13 @@ func genStale(t *rapid.T) StaleCase {
 // staleOnce plays the case once. usable=false: the machine was too slow for the
 // three reads to arrive within one escape timeout of each other (nothing can be said).
 func staleOnce(c StaleCase, e *entryInfo, want []inref.Ev) (got []inref.Ev, usable bool, err error) {
-	cp := *e.TI
-	cp.PadChar = ""
-	tty := faketty.New(80, 24)
-	s, err := tcell.NewTerminfoScreenFromTtyTerminfo(tty, &cp)
-	if err != nil {
-		return nil, false, fmt.Errorf("harness: %v", err)
-	}
-	if err := s.Init(); err != nil {
-		return nil, false, fmt.Errorf("harness: %v", err)
-	}
-	defer s.Fini()
-	s.EnableMouse()
-	for s.HasPendingEvent() {
-		s.PollEvent()
-	}
-	readBegins := func() int {
-		n := 0
-		for _, l := range tty.Log() {
-			if l.Name == "ReadBegin" {
-				n++
-			}
-		}
-		return n
-	}
-	waitReads := func(n int, d time.Duration) bool {
-		deadline := time.Now().Add(d)
-		for time.Now().Before(deadline) {
-			if tty.QueuedInput() == 0 && readBegins() >= n {
-				return true
-			}
-			time.Sleep(50 * time.Microsecond)
-		}
-		return false
-	}
-	base := readBegins()
 	var r2 []byte
 	r2 = append(r2, c.Seq1[c.Cut1:]...)
 	for i := 0; i < c.Filler; i++ {
 		r2 = append(r2, byte('a'+i%26))
 	}
 	r2 = append(r2, c.Seq2[:c.Cut2]...)
-	t0 := time.Now()
-	tty.Feed([]byte(c.Seq1[:c.Cut1]))
-	if !waitReads(base+1, 25*time.Millisecond) {
-		return nil, false, nil
-	}
-	tty.Feed(r2)
-	tty.Feed([]byte(c.Seq2[c.Cut2:]))
-	if !waitReads(base+3, 25*time.Millisecond) || time.Since(t0) > 25*time.Millisecond {
-		return nil, false, nil
-	}
-	// the application is busy for longer than the escape timeout
-	time.Sleep(130 * time.Millisecond)
-	deadline := time.Now().Add(pbt.Scaled(2 * time.Second))
-	for len(got) < len(want) && time.Now().Before(deadline) {
-		if s.HasPendingEvent() {
-			ev := s.PollEvent()
-			switch ev.(type) {
-			case *tcell.EventResize, *tcell.EventError:
-			default:
-				got = append(got, inref.From(ev))
-			}
-		} else {
-			time.Sleep(200 * time.Microsecond)
-		}
-	}
-	time.Sleep(70 * time.Millisecond) // whatever the escape timer still flushes
-	for s.HasPendingEvent() {
-		ev := s.PollEvent()
-		switch ev.(type) {
-		case *tcell.EventResize, *tcell.EventError:
-		default:
-			got = append(got, inref.From(ev))
-		}
-	}
-	return got, true, nil
+	return live.SplitUnderBackpressure(e.TI, []byte(c.Seq1[:c.Cut1]), r2, []byte(c.Seq2[c.Cut2:]), len(want))
 }
 
 func staleProp(c StaleCase) error {
